@@ -146,7 +146,7 @@ def _dec(code, n):
 def h_layout(n: int, code: int, same: bool):
     """all layouts of depth n encoded base 6 (3 kinds x project bit per level); same: all id-named levels share one id"""
     assert 1 <= n <= 5 and 0 <= code < 6 ** 5 and part_ok(code)
-    assert n <= (4 if tier() == "quick" else 5) or code in (2997, 6885)   # quick: depth 5 only for project/workspace/<id>(project)/workspace/<id>
+    assert n <= (4 if tier() == "quick" else 5)   # quick: the depth-5 chain project/workspace/<id>(project)/workspace/<id> is covered by h_nested
     assert (n == 1 and code < 6) or (n == 2 and code < 36) or (n == 3 and code < 216) or (n == 4 and code < 1296) or n == 5
     fresh_path()
     n = ci(n, 1, 5)
@@ -159,6 +159,17 @@ def h_layout(n: int, code: int, same: bool):
         discard("same-id variant needs two id-named levels")
     with nt():
         problems = _layout_case(kinds, projs, same)
+    reached()
+    assert not problems
+
+
+def h_nested(p4: bool, same: bool, z: int):
+    """the one depth-5 chain with two id-named levels: project/workspace/<id>(itself a project)/workspace/<id'>; same: id' == id"""
+    assert z == 0
+    fresh_path()
+    p4, same = cb(p4), cb(same)
+    with nt():
+        problems = _layout_case([0, 1, 2, 1, 2], [True, False, True, False, p4], same)
     reached()
     assert not problems
 
@@ -286,6 +297,7 @@ def h_init(doc: bool, cache: bool, jobs: int, extra: bool, mode: int):
 
 HARNESSES = [
     dict(name="h_layout", timeout=(900, 3000), parts=(16, 32), unblock=True),
+    dict(name="h_nested", timeout=(200, 400), unblock=True),
     dict(name="h_symlink", timeout=(200, 400), unblock=True),
     dict(name="h_init", timeout=(300, 600), unblock=True),
 ]
